@@ -71,7 +71,9 @@ def make_aggregate(qr, spec, mult=1, build=True, rwa=True):
     mols = []
     with qr.energy_units("1/cm"):
         for i in range(n):
-            m = qr.Molecule([0.0, float(spec["E"][i])])
+            # optional non-zero ground-state energies: a constant shift of the whole Hamiltonian
+            g0 = float(spec["ground"][i]) if spec.get("ground") else 0.0
+            m = qr.Molecule([g0, g0 + float(spec["E"][i])])
             if "d" in spec:
                 m.set_dipole(0, 1, list(spec["d"][i]))
             if time is not None:
